@@ -36,6 +36,7 @@ from aionostr.event import Event  # noqa: E402
 from nostr_relay.storage import kv  # noqa: E402
 from nostr_relay.storage.base import NostrQuery  # noqa: E402
 
+META = "x'y\"\\z) OR 1=1 --%_"
 PKB = {"0": "00", "7": "7f", "f": "ff"}
 PK = {k: v * 32 for k, v in PKB.items()}
 
@@ -65,6 +66,15 @@ def universe():
     evs.append(mk("0", 0, 15, [["p", PK["0"]]], n))
     n += 1
     evs.append(mk("f", 2, 15, [["e", "a"]], n))
+    # appended after the first 29 so that earlier indices (recorded cases) keep their meaning
+    n += 1
+    evs.append(mk("7", 1, 10, [["e", "A"]], n))                       # differs from 'a' by case only
+    n += 1
+    evs.append(mk("7", 1, 20, [["e", META]], n))                      # quotes, backslash, SQL/Python metacharacters
+    n += 1
+    evs.append(mk("0", 1, 20, [["e", "\u00e9\u4e2d"]], n))               # non-ASCII
+    n += 1
+    evs.append(mk("f", 1, 10, [["e", "a"], ["p", PK["0"]]], n))       # two tag names
     return evs
 
 
@@ -79,6 +89,7 @@ BASES = [
     {"#e": ["a"]}, {"#e": ["b"]}, {"#e": ["a", "b"]}, {"#e": ["ab"]}, {"#e": [""]}, {"#e": ["a"], "kinds": [1]}, {"#e": ["a"], "authors": [PK["7"]]},
     {"#e": ["a"], "kinds": [2], "authors": [PK["f"]]},
     {"#p": [PK["0"]]},
+    {"#e": ["A"]}, {"#e": [META]}, {"#e": ["\u00e9\u4e2d"]}, {"#e": ["a"], "#p": [PK["0"]]}, {"#e": ["a", "b"], "#p": [PK["0"]]}, {"#e": ["a", "A"]},
     {"ids": [ID0]}, {"ids": [IDF]}, {"ids": [ID0, IDF]}, {"ids": [ID0], "kinds": [1]}, {"ids": [ID0], "kinds": [2]},
 ]
 LIMITS = [None, 0, 1, 2]
